@@ -56,6 +56,7 @@ func drawC18(t *rapid.T, x *X) *Case {
 
 type jobResult struct {
 	raw         any
+	choices     string // Stats.ChoiceAltCnt, canonical (when the job collects statistics)
 	value, errs string
 	events      []vrt.Event
 	panicked    bool
@@ -74,6 +75,9 @@ func runJob(pk PkgMeta, j *Job, safety uint64) *jobResult {
 	resp := reg.Run(req)
 	r.end = time.Now()
 	r.raw, r.errs, r.events, r.panicked = resp.Value, resp.ErrText, ctx.Events, resp.Panicked
+	if resp.HasStats {
+		r.choices = resp.ChoiceCnt
+	}
 	return r
 }
 
@@ -104,6 +108,9 @@ func sameJob(a, b *jobResult) string {
 	}
 	if a.errs != b.errs {
 		return fmt.Sprintf("errors alone %q, concurrent %q", trunc(a.errs, 200), trunc(b.errs, 200))
+	}
+	if a.choices != b.choices {
+		return fmt.Sprintf("Stats.ChoiceAltCnt alone %s, concurrent %s", trunc(a.choices, 300), trunc(b.choices, 300))
 	}
 	if len(a.events) != len(b.events) {
 		return fmt.Sprintf("%d code-block events alone, %d concurrent", len(a.events), len(b.events))
